@@ -418,10 +418,11 @@ func (b *tableCompactionBuilder) flush() error {
 
 func (b *tableCompactionBuilder) cleanup() error {
 	if b.tw != nil {
-		if err := b.tw.drop(); err != nil {
-			return err
-		}
+		// Never keep a table writer that has been dropped or finished, the
+		// retried compaction must start a new table.
+		err := b.tw.drop()
 		b.tw = nil
+		return err
 	}
 	return nil
 }
